@@ -286,6 +286,65 @@ MODULE_OPS = {"createF", "createB", "cancel", "place", "modify", "addmsg", "para
 
 # ------------------------------------------------------------------ correspondence runs
 
+FGEN = os.path.join(LEAN, ".lake", "build", "bin", "fgen")
+
+
+def pure_stream(tier, seed):
+    """the pure-function stream: random edge-biased inputs evaluated by the REAL Go functions
+    (`harness pure`) and by the Lean driver `fgen` (translated definitions AND model functions).
+    Returns dict(cases, counts, gen_mismatch=[(line, go, gen)], model_mismatch=[(line, go, model)], note)."""
+    n = 400000 if tier == "thorough" else 40000
+    d = os.path.join(CACHE, "pure", "%s-%s-%s-%d" % (repo_fp(), machinery_fp(), tier, seed))
+    res = dict(cases=0, counts={}, gen_mismatch=[], model_mismatch=[], note="")
+    with Lock("pure-" + os.path.basename(d)):
+        os.makedirs(d, exist_ok=True)
+        fin, fout, flean = os.path.join(d, "in"), os.path.join(d, "go"), os.path.join(d, "lean")
+        if not os.path.exists(os.path.join(d, "DONE")):
+            build_harness()
+            p = run([HBIN, "pure", "-seed", str(seed), "-n", str(n), "-in", fin, "-out", fout], cwd=HARNESS, env=GOENV,
+                    timeout=3600, check=False)
+            if p.returncode != 0:
+                res["note"] = "harness pure failed: " + p.stdout[-300:]
+                return res
+            with open(os.path.join(d, "counts"), "w") as f:
+                f.write(p.stdout.strip().split("\n")[-1])
+            with Lock("build-lean"):
+                b = run(["lake", "build", "fgen"], cwd=LEAN, timeout=3600, check=False)
+            if b.returncode != 0:
+                # the translated code of this tree does not compile: nothing to execute (the tie
+                # theorems of the functions concerned are reported by the proof side)
+                res["note"] = "fgen does not build against the code translated from this tree"
+                open(flean, "w").close()
+            else:
+                with open(fin) as i, open(flean, "w") as o:
+                    subprocess.run([FGEN], stdin=i, stdout=o, timeout=3600)
+            open(os.path.join(d, "DONE"), "w").close()
+        try:
+            res["counts"] = json.loads(open(os.path.join(d, "counts")).read())
+        except Exception:
+            pass
+        ins = open(fin).read().split("\n")
+        gos = open(fout).read().split("\n")
+        les = open(flean).read().split("\n")
+        if len(les) < len(gos) - 1:
+            res["note"] = res["note"] or "fgen produced %d lines for %d cases" % (len(les), len(gos))
+        for line, g, l in zip(ins, gos, les):
+            if not line or not l:
+                continue
+            res["cases"] += 1
+            try:
+                gen, model = l.split(" | ")
+                gen, model = gen[4:].strip(), model[6:].strip()
+            except ValueError:
+                res["gen_mismatch"].append((line, g, l))
+                continue
+            if g.strip() != gen:
+                res["gen_mismatch"].append((line, g.strip(), gen))
+            if g.strip() != model:
+                res["model_mismatch"].append((line, g.strip(), model))
+    return res
+
+
 def tier_plan(tier):
     if tier == "thorough":
         return dict(workers=NCPU, histories=120, maxops=60, profile="thorough")
